@@ -8,6 +8,7 @@ from .. import bits, fields, paths
 from ..core import FUNC, call_attr, calls_in, const, dotted, is_const, kwarg, norm, slice_parts, text, walk_local
 
 EXPLANATION = [
+    'C19.missing-await: inside async functions no call that resolves (through the declared type of self.<attr>, or self) to a coroutine method is returned or dropped without await.',
     "C19.identity: no `is` / `is not` comparison in the anchored modules has an operand declared as a number, byte string or string (identity of equal integers holds only inside CPython's small-integer cache, so such a test is right for values up to 256 and wrong afterwards).",
     'C19.sdp-codecs: every _parse_X / _serialize_X helper pair of bumble.sdp uses the same set of struct item types (byte order, width and signedness of each item) on both sides.',
     'C19.sdp-all: match_services admits a record only under a universal test over the UUIDs of the pattern (all(... any(...)) or an equivalent for/else), never inside the per-UUID loop on the first hit.',
@@ -627,7 +628,13 @@ def identity_rule(ctx):
     identity_compare(ctx, 'C19.identity', ['bumble.sdp', 'bumble.avdtp', 'bumble.avctp', 'bumble.avrcp', 'bumble.a2dp'])
 
 
+def missing_await_rule(ctx):
+    from ..generic_rules import missing_await
+    missing_await(ctx, 'C19.missing-await', ['bumble.avdtp', 'bumble.sdp', 'bumble.avctp', 'bumble.avrcp', 'bumble.a2dp'])
+
+
 RULES = [
+    ('C19.missing-await', missing_await_rule),
     ('C19.identity', identity_rule),
     ('C19.sdp-all', sdp_all),
     ('C19.sdp-client-state', sdp_client_state),
